@@ -97,9 +97,9 @@ func uni(t *rapid.T, n int, label string) int {
 		return 0
 	}
 	v := 0
-	for i := 0; i < 11; i++ {
+	for _, b := range rapid.SliceOfN(rapid.Bool(), 11, 11).Draw(t, label) {
 		v <<= 1
-		if rapid.Bool().Draw(t, label) {
+		if b {
 			v |= 1
 		}
 	}
